@@ -1,4 +1,5 @@
 import RbV.Gen.SrcSaisLms
+import RbV.Gen.SrcTransform
 import RbV.Thm.GenSrcSaisLms
 import RbV.Thm.GenSrcSaisCalcPosSafe
 import RbV.Thm.GenSrcSaisBuckets
@@ -209,5 +210,34 @@ theorem constructSrc_eq_model (castU : Nat → Option Nat) (castS : Nat → Nat 
     simp only [Res.ok_bind]
     rw [hE]
     rfl
+
+/-! ### the two public entry points: glue (hand-written, five statements each) around the translated pieces
+
+`suffix_array(text)`: `Alphabet::new(text)`, `sentinel_count(text)`, `Sais::new(n)` (empty vectors, `reduced_text_pos = vec![0; n]`,
+empty `VecMap`), `sais.construct(&transform_text::<uN>(text, &alphabet, sentinel_count))` at the width the `match` selects,
+`sais.pos`.  The `match` is not rendered: `castT` stands for the `cast::<usize, uN>` of the arm taken (its contract is what
+`sais_transform_width_fits` proves of the extracted guards). -/
+
+def suffixArraySrc (castT castU : Nat → Option Nat) (castS : Nat → Nat → Option Nat) (text : List Nat) : Res (List Nat) := do
+  let alphabet ← SrcAlphabet.alphabetNew text
+  let sc ← SrcTransform.sentinel_count text
+  let tt ← SrcTransform.transform_text castT text alphabet sc
+  let r ← constructSrc castU castS tt.length [] [] (List.replicate text.length 0) VecMap.empty [] [] tt
+  pure r.1
+
+/-- `suffix_array_int(text)`: `Sais::new(text.len())`, `sais.construct(&text)`, `sais.pos` -/
+def suffixArrayIntSrc (castU : Nat → Option Nat) (castS : Nat → Nat → Option Nat) (text : List Nat) : Res (List Nat) := do
+  let r ← constructSrc castU castS text.length [] [] (List.replicate text.length 0) VecMap.empty [] [] text
+  pure r.1
+
+/-- the knot started from `Sais::new(n)` returns the sorted suffix permutation of every text SA-IS accepts -/
+theorem constructSrc_sorted (castU : Nat → Option Nat) (castS : Nat → Nat → Option Nat)
+    (hcU : ∀ c, castU c = some c) (hcS : ∀ w x, x < 2 ^ w → castS w x = some x)
+    (t : List Nat) (n : Nat) (hv : Valid t) (hn : t.length ≤ n) (hsz : n < 2 ^ 62) :
+    ∃ r : Fields, constructSrc castU castS t.length [] [] (List.replicate n 0) VecMap.empty [] [] t = Res.ok r ∧
+      SuffixSorted t r.1 := by
+  obtain ⟨b, h⟩ := constructSrc_eq_model castU castS hcU hcS t.length t (St.new n) VecMap.empty hv (Nat.le_refl _)
+    (by simp [St.new]; exact hn) (by simp [St.new]; exact hsz)
+  exact ⟨_, h, construct_sorted t.length t (St.new n) hv (Nat.le_refl _) (by simp [St.new]; exact hn)⟩
 
 end RbV.Thm.GenSrcSaisConstruct
